@@ -217,6 +217,9 @@ func (g *generator) buildMethod(genMethod *generatedMethod, context map[string]*
 	} else if err != nil {
 		return builder.NewError(err.Error())
 	} else {
+		if len(genMethod.RawFieldSettings) > 0 && (&builder.UseUnderlyingTypeMethods{}).Matches(ctx, source, target) {
+			return builder.NewError(fmt.Sprintf("The method delegates to an extend function for the underlying type (useUnderlyingTypeMethods)\n\nand therefore these field related settings would be ignored:\n    goverter:%s", strings.Join(genMethod.RawFieldSettings, "\n    goverter:")))
+		}
 		stmt, newID, err := g.buildNoLookup(ctx, sourceID, source, target, nil)
 		if err != nil {
 			return err
